@@ -48,8 +48,7 @@ for _p in ["C%02d" % i for i in range(1, 21)]:
 
 P("C05", "model_checking", native=True, kani={"timeout": "900s"},
   bounded="programs: depth profiles n<=3 (quick: d<=2 plus selected d=3; thorough: d<=3 plus n=4 samples), Option/Result sync and Result async; every (branch, step) failure flag and payload symbolic",
-  unbounded="the transposer that turns the per-branch results into one Option/Result is r0.and_then(|r0| r1.and_then(|r1| .. rn.map(|rn| (all values)))) for ANY number of branches (generate_results_transposer, R13 desugaring of iter().rev().fold()): branch k is examined before every later one and the tuple is reached only when all succeeded",
-  unbounded_2="join_steps (module steps): in a transposing try macro the failure test of a step looks at exactly the ACTIVE branches in branch order, arm k hands back the failure of the k-th active branch with its payload untouched (r.map(|_| unreachable!())), and the next step sits ONLY in the else branch",
+  unbounded="the transposer that turns the per-branch results into one Option/Result is r0.and_then(|r0| r1.and_then(|r1| .. rn.map(|rn| (all values)))) for ANY number of branches (generate_results_transposer, R13 desugaring of iter().rev().fold()): branch k is examined before every later one and the tuple is reached only when all succeeded; join_steps (module steps): in a transposing try macro the failure test of a step looks at exactly the ACTIVE branches in branch order, arm k hands back the failure of the k-th active branch with its payload untouched (r.map(|_| unreachable!())), and the next step sits ONLY in the else branch",
   not_decided="thread / tokio schedules beyond the native sweeps; generate_steps (the fold over the steps) is outside Verus")
 
 P("C06", "model_checking", native=True, kani={"timeout": "900s"},
